@@ -158,20 +158,38 @@ Proof.
   destruct (p_open P key _ _ _) as [pt|]; [|reflexivity]. cbn [obind snd fst]. now rewrite Hk.
 Qed.
 
+(* the one place where the VALUES of the two literals of the length guard enter the proofs: every theorem
+   that speaks of 96 / 65535 goes through these lemmas, so it is re-checked against the literals the
+   translator reads from noise.rs on every run *)
+Lemma guard_values : guard_min = 96%nat /\ guard_max = 65535.
+Proof. split; reflexivity. Qed.
+
+Lemma read_len_guard_reads_extracted len :
+  read_len_guard false len =
+  (if Nat.leb (N.to_nat x_noise_guard_min) len && (N.of_nat len <=? x_noise_guard_max) then Ok tt else Err NOther) /\
+  noise_len_ok len = (Nat.leb (N.to_nat x_noise_guard_min) len && (N.of_nat len <=? x_noise_guard_max))%bool.
+Proof. split; reflexivity. Qed.
+
+Lemma noise_len_ok_iff len : noise_len_ok len = true <-> (96 <= len)%nat /\ N.of_nat len <= 65535.
+Proof.
+  unfold noise_len_ok. destruct guard_values as [-> ->].
+  rewrite andb_true_iff, Nat.leb_le, N.leb_le. reflexivity.
+Qed.
+
 Lemma read_len_guard_ok legacy len : noise_len_ok len = true -> read_len_guard legacy len = Ok tt.
 Proof.
-  unfold noise_len_ok, read_len_guard. intros Hg. apply andb_true_iff in Hg. destruct Hg as [Hg1 Hg2].
-  apply Nat.leb_le in Hg1. rewrite Hg2. destruct legacy.
-  - destruct (Nat.leb_spec 64 len); [reflexivity|lia].
-  - destruct (Nat.leb_spec 96 len); [reflexivity|lia].
+  intros Hg. pose proof Hg as Hg'. apply noise_len_ok_iff in Hg'. destruct Hg' as [Hg1 Hg2].
+  unfold read_len_guard. destruct legacy.
+  - destruct (Nat.leb_spec 64 len) as [_|Hlt]; [|lia]. apply N.leb_le in Hg2. rewrite Hg2. reflexivity.
+  - unfold noise_len_ok in Hg. rewrite Hg. reflexivity.
 Qed.
 
 Theorem noise_decrypt_gen_eq legacy r rpk prologue msg :
   length r = 32%nat -> noise_len_ok (length msg) = true ->
   noise_decrypt_gen P legacy r rpk prologue msg = noise_decrypt_spec P r rpk prologue msg.
 Proof.
-  intros Hr Hg. pose proof Hg as Hg'. unfold noise_len_ok in Hg'. apply andb_true_iff in Hg'.
-  destruct Hg' as [Hg1 _]. apply Nat.leb_le in Hg1.
+  intros Hr Hg. pose proof Hg as Hg'. apply noise_len_ok_iff in Hg'.
+  destruct Hg' as [Hg1 _].
   unfold noise_decrypt_gen, noise_decrypt_spec. rewrite init_x_resp. cbn [obind].
   unfold read_message_gen. rewrite read_len_guard_ok by assumption. cbn [obind].
   unfold x_noise_pattern. cbn [fold_tokens].
@@ -363,7 +381,7 @@ Qed.
 
 Lemma noise_len_ok_intro len : (96 <= len)%nat -> N.of_nat len <= 65535 -> noise_len_ok len = true.
 Proof.
-  intros H1 H2. unfold noise_len_ok. apply andb_true_iff. split; [now apply Nat.leb_le|]. now apply N.leb_le.
+  intros H1 H2. apply noise_len_ok_iff. split; assumption.
 Qed.
 
 Theorem noise_decrypt_dh_zero r rpk prologue msg :
